@@ -100,3 +100,65 @@ class Returns(Stream):
 
     def tag(self, case, o):
         return o[0]
+
+
+class ExtractOrder(Stream):
+    """extract() of a parsed user document in which a switched-off ('!') object precedes or follows an active object of the
+    same name, at any depth and in either order: only RuntimeError / Sorry may escape.  Oracle only."""
+    name = "extract_order"
+    cluster = "Parse"
+    DOCS = [
+        "!refine {\n  cycles = 3\n}\nrefine {\n  cycles = 5\n}\n",
+        "refine {\n  cycles = 5\n}\n!refine {\n  cycles = 3\n}\n",
+        "s {\n  !t {\n    a = 1\n  }\n  t {\n    a = 2\n  }\n}\n",
+        "!x = 1\nx {\n  y = 2\n}\n",
+        "x {\n  y = 2\n}\n!x = 1\n",
+        "!x {\n  y = 2\n}\nx = 3\n",
+        "!a = 1\n!a = 2\na = 3\n",
+        "s {\n  !b = 1\n}\ns {\n  b {\n    c = 2\n  }\n}\n",
+        "m = 1\n  .multiple = True\n!m = 2\n  .multiple = True\nm = 3\n  .multiple = True\n",
+        "!g {\n  k = 1\n}\ng\n  .multiple = True\n{\n  k = 2\n}\ng\n  .multiple = True\n{\n  k = 3\n}\n",
+    ]
+
+    def __init__(self, ctx):
+        super().__init__(ctx)
+        import vlib
+        self.fp = vlib.import_freephil()
+
+    def corpus(self):
+        return list(self.DOCS)
+
+    def cases(self, rng, tier):
+        names = ["a", "s", "refine"]
+        for _ in range(60 if tier == "quick" else 600):
+            n = rng.choice(names)
+            parts = []
+            for _ in range(rng.randint(2, 4)):
+                dis = "!" if rng.random() < 0.5 else ""
+                if rng.random() < 0.6:
+                    parts.append("%s%s {\n  v = %d\n}\n" % (dis, n, rng.randint(0, 9)))
+                else:
+                    # a definition under the same name only switched off (an active definition and an active scope of one
+                    # name is an ill-formed document)
+                    parts.append("!%s = %d\n" % (n, rng.randint(0, 9)))
+            yield "".join(parts)
+
+    def impl(self, case):
+        try:
+            self.fp.parse(case).extract()
+            return ["ok"]
+        except (RuntimeError, self.fp.Sorry) as e:
+            return ["refused", type(e).__name__]
+        # anything else propagates: the harness reports the case as not completed
+
+    def requests(self, case, o):
+        return []
+
+    def model(self, case, replies, o):
+        return o
+
+    def prop(self, case, o):
+        return None
+
+    def tag(self, case, o):
+        return o[0]
